@@ -333,3 +333,60 @@ package varlink
 //@   ensures [convN C20] actPre() && gNfds > 1 && gNamesSet && len(gNames) == gNfds && !gFdCalled ==> (forall k int :: 0 <= k && k < len(gNames) ==> gNames[k] != "varlink")
 //@   ensures [convN2 C20] actPre() && gNfds > 1 && gNamesSet && len(gNames) == gNfds && gFdCalled && result == nil ==> gFLErr != nil
 //@   loop 1 invariant [first C20] fd == -1 && -1 <= rangeindex && (forall j int :: 0 <= j && j <= rangeindex ==> names[j] != "varlink")
+
+// ---- serving loop, shutdown, idle timeout (C14 C15) and lock discipline (C16)
+
+//@ ghost gQuiescent [ref]bool
+//@ fieldproto Service.running locked {C16}
+//@ fieldproto Service.conncounter locked {C16}
+//@ fieldproto Service.listener serverlocked {C16}
+//@ fieldproto Service.protocol server {C16}
+//@ fieldproto Service.address server {C16}
+//@ fieldproto Service.interfaces tables {C16}
+//@ fieldproto Service.descriptions tables {C16}
+//@ fieldproto Service.names tables {C16}
+
+//@ ghost gAccErr iface
+//@ ghost gAccTimeout bool
+//@ ghost gRunSeen bool
+//@ ghost gCntSeen int
+//@ ghost gCnt int
+//@ ghost gAdds int
+//@ ghost gBound iface
+
+//@ func (setDeadliner).SetDeadline(self, t)
+//@   interface
+//@   modifies gDlOk, gSetDl
+//@   ensures gSetDl == old(gSetDl) + 1 && (result == nil ==> gDlOk)
+
+//@ func (ServiceTimeoutError).Error {C15}
+//@   ensures [text C15] result == "service timeout"
+
+//@ func (*Service).GetListener {C16 | safety: C10}
+//@   requires [nn] s != nil && !held[s]
+//@   modifies held
+//@   ensures [val C14] result0 == s.listener && result1 == nil && !held[s]
+
+//@ func (*Service).Shutdown {C14 C16 | safety: C10}
+//@   requires [nn] s != nil && !held[s]
+//@   modifies s.running, held, closed
+//@   ensures [stopped C14] !s.running
+//@   ensures [closed C14] old(s.listener) != nil ==> closed[old(s.listener)]
+//@   ensures [unlocked C14 C16] !held[s] && (forall r ref :: r != s ==> held[r] == old(held)[r])
+//@   ensures [keeps C14] s.listener == old(s.listener)
+
+//@ func (*Service).teardown {C14 C15 C16 | safety: C10}
+//@   role server
+//@   requires [nn] s != nil && !held[s]
+//@   modifies s.listener, s.running, s.protocol, s.address, held, closed
+//@   ensures [reset C14] s.listener == nil && !s.running && s.protocol == "" && s.address == ""
+//@   ensures [released C15] old(s.listener) != nil ==> closed[old(s.listener)]
+//@   ensures [unlocked C14 C16] !held[s] && (forall r ref :: r != s ==> held[r] == old(held)[r])
+
+//@ func (*Service).refreshTimeout {C15 C16 | safety: C10}
+//@   role server
+//@   requires [nn] s != nil
+//@   modifies gDlOk, gSetDl
+//@   ghostset at typeassert#1 : gDlOk = !res1
+//@   ensures [armed C15] result == nil ==> gDlOk
+//@   ensures [calls C15] gSetDl == old(gSetDl) || gSetDl == old(gSetDl) + 1
